@@ -1,5 +1,6 @@
 import AFProofs.Lemmas.Prior
 import AFProofs.Lemmas.PriorDbl
+import AFProofs.Lemmas.PriorRandom
 
 /-!
 # C02 — priors map the unit interval monotonically onto their support
@@ -10,9 +11,13 @@ functions as parameters satisfying `Lawful` (inverse pairs, monotone, ranges –
 
 * quantile clauses: `*_quantile`, `value_is_declared_quantile`
 * monotone: `rawValue_monotone`, `valueFor_monotone`
-* inverted by the unit-value function: `unit_of_value`, `value_of_unit_*`
+* inverted by the unit-value function: `unit_of_value`, `value_of_unit_*` (log-uniform on its support:
+  `value_of_unit_logUniform_on_support`)
 * limits: `gate_sound`, `gate_ignore`, `gate_limit_iff`, `valueFor_in_limits`, `valueFor_limit_iff`
-* random draws: `random_in_limits`, `random_never_raises_gaussian` (exact arithmetic)
+* random draws: `random_in_limits`, `random_never_raises_{gaussian,uniform,logUniform,logGaussian}` (exact
+  arithmetic, each with its exact guard), `unit_limits_uniform`
+* doubles as data (`Dbl`): `round_monotone_on_doubles`, `round_monotone_exact`, `finishD_in_limits`,
+  `finishD_limit_iff`, `finishD_monotone`, `valueForD_monotone`
 * rounding of `UniformPrior.value_for`: full statement for the repaired code (`cfg.repaired = true`),
   `_partial` + refutation witnesses (on `Float`, by kernel evaluation) for the behaviour of the pinned commit.
 
@@ -260,6 +265,36 @@ theorem value_of_unit_logUniform (S : Special K) (h : Lawful S) (L U m s x : K) 
   have e : (S.log10 x - S.log10 L) / S.log10 (U / L) * S.log10 (U / L) + S.log10 L = S.log10 x := by grind
   rw [e, h.pow10_log10 x hx]
 
+/-- Log-uniform on its support, with the log-coordinate hypothesis narrowed to a single equation about the
+two limits (`hlog`: `log10 (U/L) = log10 U - log10 L`, true of the real logarithm): `value_for
+(unit_value_for x) = x` for every `L < x < U`. The strict monotonicity of `log10` this needs is derived from
+`Lawful` (inverse pair + monotone `10^x`). -/
+theorem value_of_unit_logUniform_on_support (S : Special K) (h : Lawful S) (L U m s x : K) (hL : 0 < L)
+    (hLx : L < x) (hxU : x < U) (hlog : S.log10 (U / L) = S.log10 U - S.log10 L) :
+    rawValueFor S ⟨.logUniform, L, U, m, s⟩ (unitValueFor S ⟨.logUniform, L, U, m, s⟩ x) = x := by
+  have hLU : L < U := by grind
+  have hx : 0 < x := by grind
+  have hs := logScale_pos S h L U hL hLU
+  have l1 := log10_strict_of_lawful S h L x hL hLx
+  have l2 := log10_strict_of_lawful S h x U hx hxU
+  have hne : S.log10 (U / L) ≠ 0 := by grind
+  have t0 : 0 < (S.log10 x - S.log10 L) / S.log10 (U / L) := by
+    have := div_le_div_right 0 (S.log10 x - S.log10 L) (S.log10 (U / L)) hs (by grind)
+    have : (S.log10 x - S.log10 L) / S.log10 (U / L) ≠ 0 := by
+      intro hz
+      have : S.log10 (U / L) * ((S.log10 x - S.log10 L) / S.log10 (U / L)) = S.log10 x - S.log10 L := by grind
+      grind
+    grind
+  have t1 : (S.log10 x - S.log10 L) / S.log10 (U / L) < 1 := by
+    have := div_le_div_right (S.log10 x - S.log10 L) (S.log10 (U / L)) (S.log10 (U / L)) hs (by grind)
+    have e1 : S.log10 (U / L) / S.log10 (U / L) = 1 := by grind
+    have : (S.log10 x - S.log10 L) / S.log10 (U / L) ≠ 1 := by
+      intro hz
+      have : S.log10 (U / L) * ((S.log10 x - S.log10 L) / S.log10 (U / L)) = S.log10 x - S.log10 L := by grind
+      grind
+    grind
+  exact value_of_unit_logUniform S h L U m s x hL hLU hx t0 t1
+
 /-! ## limits: a value inside the limits or the limit exception -/
 
 /-- `value_for` never silently returns an out-of-limit value (repaired code, every family, every special
@@ -378,6 +413,95 @@ theorem random_never_raises_gaussian (S : Special K) (h : Lawful S) (cfg : Cfg) 
     simp [this]
   simp only [hg]
 
+/-- The unit limits between which `Prior.random` draws, for the two uniform families: the clamp epsilon
+of `transform.ndtri` (1e-14) and its complement - not 0 and 1. -/
+theorem unit_limits_uniform (S : Special K) (h : Lawful S) (L U m s : K) (hLU : L < U) :
+    unitValueFor S ⟨.uniform, L, U, m, s⟩ L = S.eps ∧ unitValueFor S ⟨.uniform, L, U, m, s⟩ U = 1 - S.eps :=
+  unitLimits_uniform S h L U m s hLU
+
+/-- In exact arithmetic `UniformPrior.random(lo, hi)` never raises and returns a value inside the limits,
+whenever the requested unit interval meets `[eps, 1 - eps]` (guard: `lo ≤ 1 - eps`, `eps ≤ hi`, `lo ≤ hi`;
+`eps ≤ 1 - eps` holds for the code's 1e-14). -/
+theorem random_never_raises_uniform (S : Special K) (h : Lawful S) (L U m s lo hi r : K)
+    (hLU : L < U) (heps : S.eps ≤ 1 - S.eps) (hr0 : 0 ≤ r) (hr1 : r ≤ 1)
+    (hlo : lo ≤ 1 - S.eps) (hhi : S.eps ≤ hi) (hlohi : lo ≤ hi) :
+    ∃ v, randomDraw S { repaired := true } ⟨.uniform, L, U, m, s⟩ lo hi r = .ok v ∧ L ≤ v ∧ v ≤ U := by
+  obtain ⟨ea, eb⟩ := unitLimits_uniform S h L U m s hLU
+  have hw := randomUnit_between lo hi S.eps (1 - S.eps) r heps hlo hhi hlohi hr0 hr1
+  have p0 := h.eps_pos
+  have hin := uniform_raw_in_limits S h L U m s _ hLU (by grind) (by grind : randomUnit lo hi S.eps (1 - S.eps) r < 1)
+  obtain ⟨v, hv⟩ := valueFor_ok_of_in_limits S { repaired := true } ⟨.uniform, L, U, m, s⟩ _ hin
+  have hd : randomDraw S { repaired := true } ⟨.uniform, L, U, m, s⟩ lo hi r = .ok v := by
+    unfold randomDraw
+    simp only [ea, eb]
+    exact hv
+  exact ⟨v, hd, random_in_limits S ⟨.uniform, L, U, m, s⟩ (by grind) lo hi r v hd⟩
+
+/-- In exact arithmetic `LogUniformPrior.random(lo, hi)` never raises, given that `log10` turns the
+quotient of the two limits into the difference (`hlog`, true of the real logarithm - the one law about
+`log10` that is not part of `Lawful`), under the same guard as the uniform prior. -/
+theorem random_never_raises_logUniform (S : Special K) (h : Lawful S) (cfg : Cfg) (L U m s lo hi r : K)
+    (hL : 0 < L) (hLU : L < U) (hlog : S.log10 (U / L) = S.log10 U - S.log10 L)
+    (heps : S.eps ≤ 1 - S.eps) (hr0 : 0 ≤ r) (hr1 : r ≤ 1)
+    (hlo : lo ≤ 1 - S.eps) (hhi : S.eps ≤ hi) (hlohi : lo ≤ hi) :
+    ∃ v, randomDraw S cfg ⟨.logUniform, L, U, m, s⟩ lo hi r = .ok v ∧ L ≤ v ∧ v ≤ U := by
+  obtain ⟨ea, eb⟩ := unitLimits_logUniform S h L U m s hL hLU hlog
+  have hw := randomUnit_between lo hi S.eps (1 - S.eps) r heps hlo hhi hlohi hr0 hr1
+  have p0 := h.eps_pos
+  have hin := logUniform_raw_in_limits S h L U m s _ hL hLU hlog (by grind)
+    (by grind : randomUnit lo hi S.eps (1 - S.eps) r < 1)
+  obtain ⟨v, hv⟩ := valueFor_ok_of_in_limits S cfg ⟨.logUniform, L, U, m, s⟩ _ hin
+  have hd : randomDraw S cfg ⟨.logUniform, L, U, m, s⟩ lo hi r = .ok v := by
+    unfold randomDraw
+    simp only [ea, eb]
+    exact hv
+  exact ⟨v, hd, valueFor_in_limits_nonuniform S cfg ⟨.logUniform, L, U, m, s⟩ (by simp) _ v hv⟩
+
+/-- In exact arithmetic `LogGaussianPrior.random(lo, hi)` never raises for a positive lower limit, whenever
+the requested unit interval meets the interval between the unit limits. (A lower limit 0 has unit limit
+`Φ(log 0) = Φ(-∞) = 0`, which only exists on doubles; on doubles the statement fails for limits far in a
+tail - the same known finding as for the Gaussian prior.) -/
+theorem random_never_raises_logGaussian (S : Special K) (h : Lawful S) (cfg : Cfg) (L U m s lo hi r : K)
+    (hL : 0 < L) (hLU : L < U) (hs : 0 < s) (hr0 : 0 ≤ r) (hr1 : r ≤ 1)
+    (hlo : lo ≤ unitValueFor S ⟨.logGaussian, L, U, m, s⟩ U)
+    (hhi : unitValueFor S ⟨.logGaussian, L, U, m, s⟩ L ≤ hi) (hlohi : lo ≤ hi) :
+    ∃ v, randomDraw S cfg ⟨.logGaussian, L, U, m, s⟩ lo hi r = .ok v ∧ L ≤ v ∧ v ≤ U := by
+  have hsne : s ≠ 0 := by grind
+  have hU0 : 0 < U := by grind
+  have hll := log_mono_of_lawful S h L U hL (by grind)
+  have hab : S.phi ((S.log L - m) / s) ≤ S.phi ((S.log U - m) / s) :=
+    h.phi_mono _ _ (div_le_div_right _ _ s hs (by grind))
+  simp only [unit_logGaussian] at hlo hhi
+  obtain ⟨hwa, hwb⟩ := randomUnit_between lo hi _ _ r hab hlo hhi hlohi hr0 hr1
+  generalize hw : randomUnit lo hi (S.phi ((S.log L - m) / s)) (S.phi ((S.log U - m) / s)) r = w at hwa hwb
+  have hw0 : 0 < w := by have := h.phi_pos ((S.log L - m) / s); grind
+  have hw1 : w < 1 := by have := h.phi_lt_one ((S.log U - m) / s); grind
+  have hzL := h.phiInv_mono _ _ (h.phi_pos _) hwa hw1
+  have hzU := h.phiInv_mono _ _ hw0 hwb (h.phi_lt_one _)
+  rw [h.phiInv_phi] at hzL hzU
+  have hlL : S.log L ≤ m + s * S.phiInv w := by
+    have := mul_le_mul_left' _ _ s (by grind) hzL
+    have e : s * ((S.log L - m) / s) = S.log L - m := by grind
+    grind
+  have hlU : m + s * S.phiInv w ≤ S.log U := by
+    have := mul_le_mul_left' _ _ s (by grind) hzU
+    have e : s * ((S.log U - m) / s) = S.log U - m := by grind
+    grind
+  have hin : L ≤ rawValueFor S ⟨.logGaussian, L, U, m, s⟩ w ∧ rawValueFor S ⟨.logGaussian, L, U, m, s⟩ w ≤ U := by
+    rw [raw_logGaussian]
+    have a := h.exp_mono _ _ hlL
+    have b := h.exp_mono _ _ hlU
+    rw [h.exp_log L hL] at a
+    rw [h.exp_log U hU0] at b
+    exact ⟨a, b⟩
+  obtain ⟨v, hv⟩ := valueFor_ok_of_in_limits S cfg ⟨.logGaussian, L, U, m, s⟩ w hin
+  have hd : randomDraw S cfg ⟨.logGaussian, L, U, m, s⟩ lo hi r = .ok v := by
+    unfold randomDraw
+    simp only [unit_logGaussian]
+    rw [hw]
+    exact hv
+  exact ⟨v, hd, valueFor_in_limits_nonuniform S cfg ⟨.logGaussian, L, U, m, s⟩ (by simp) _ v hv⟩
+
 end Field
 
 /-- the gate theorems instantiate at the driver's own instance (`Float`, `floatSpecial`) -/
@@ -413,6 +537,26 @@ example : ∃ v, randomDraw ratSpecial {} ⟨.gaussian, 0, 2, 1, 2⟩ 0 1 (1 / 3
     (by grind) (by grind) (by grind) (by grind)
     (by rw [unit_gaussian]; exact Std.le_of_lt (ratSpecial_lawful.phi_pos _))
     (by rw [unit_gaussian]; exact Std.le_of_lt (ratSpecial_lawful.phi_lt_one _)) (by grind)
+
+example : ∃ v, randomDraw ratSpecial {} ⟨.uniform, 2, 5, 0, 0⟩ 0 1 (1 / 3) = .ok v ∧ (2 : Rat) ≤ v ∧ v ≤ 5 :=
+  random_never_raises_uniform ratSpecial ratSpecial_lawful 2 5 0 0 0 1 (1 / 3)
+    (by grind) (by decide +kernel) (by grind) (by grind) (by decide +kernel) (by decide +kernel) (by grind)
+
+/-- the log-coordinate hypothesis is met by the closed-form instance for a lower limit 1 -/
+example : ∃ v, randomDraw ratSpecial {} ⟨.logUniform, 1, 10, 0, 0⟩ 0 1 (2 / 3) = .ok v ∧ (1 : Rat) ≤ v ∧ v ≤ 10 :=
+  random_never_raises_logUniform ratSpecial ratSpecial_lawful {} 1 10 0 0 0 1 (2 / 3)
+    (by grind) (by grind) (by decide +kernel) (by decide +kernel) (by grind) (by grind)
+    (by decide +kernel) (by decide +kernel) (by grind)
+
+example : ∃ v, randomDraw ratSpecial {} ⟨.logGaussian, 1 / 2, 8, 1, 2⟩ 0 1 (1 / 3) = .ok v ∧ (1 / 2 : Rat) ≤ v ∧ v ≤ 8 :=
+  random_never_raises_logGaussian ratSpecial ratSpecial_lawful {} (1 / 2) 8 1 2 0 1 (1 / 3)
+    (by grind) (by grind) (by grind) (by grind) (by grind)
+    (by rw [unit_logGaussian]; exact Std.le_of_lt (ratSpecial_lawful.phi_pos _))
+    (by rw [unit_logGaussian]; exact Std.le_of_lt (ratSpecial_lawful.phi_lt_one _)) (by grind)
+
+example : rawValueFor ratSpecial ⟨.logUniform, 1, 10, 0, 0⟩ (unitValueFor ratSpecial ⟨.logUniform, 1, 10, 0, 0⟩ 3) = 3 :=
+  value_of_unit_logUniform_on_support ratSpecial ratSpecial_lawful 1 10 0 0 3 (by grind) (by grind) (by grind)
+    (by decide +kernel)
 
 /-! ## rounding of `UniformPrior.value_for` on doubles
 
